@@ -1,2 +1,187 @@
+//! C03 / C04: the collector driven directly (replay of NlGC behaviours), and heap-ledger
+//! records of whole evaluations, including every abort point.
+
+use crate::ast::to_text;
+use crate::gen::Gen;
+use crate::pool::Worker;
+use crate::run::RunOpts;
+use crate::semfam::cfg_for;
+use crate::Args;
+use nederlang::object::{FromString, FromVec, Object};
+use nederlang::verif::{self, Event, GC};
 use serde_json::{json, Value};
-pub fn run_gcops(_req: &Value) -> Value { json!({}) }
+use std::collections::BTreeMap;
+use std::io::{BufRead, Write};
+use std::time::Duration;
+
+/// Replay one behaviour of NlGC on the real collector (worker op "gcops").
+/// req.ops: [{op:[name, args...], live, managed, ...}]; the answer lists, after each
+/// operation, the real collector's managed set and the live boxes, by model name.
+pub fn run_gcops(req: &Value) -> Value {
+    verif::reset();
+    verif::record_heap(true);
+    let mut gc: Option<GC> = Some(GC::new());
+    let mut objs: BTreeMap<String, Object> = BTreeMap::new();
+    let mut roots: Vec<(String, Object)> = Vec::new();
+    let mut obs: Vec<Value> = Vec::new();
+    let empty = vec![];
+    for step in req["ops"].as_array().unwrap_or(&empty) {
+        let op: Vec<String> = step["op"]
+            .as_array()
+            .unwrap_or(&empty)
+            .iter()
+            .map(|x| x.as_str().unwrap_or("").to_string())
+            .collect();
+        let name = op.first().map(|s| s.as_str()).unwrap_or("");
+        let _ = verif::take_events();
+        if gc.is_none() {
+            gc = Some(GC::new());
+        }
+        let g = gc.as_mut().unwrap();
+        match name {
+            "alloc" => {
+                let o = match op[2].as_str() {
+                    "F" => Object::float(1.5, g),
+                    "S" => Object::string("tekst", g),
+                    _ => Object::array(Vec::<Object>::new(), g),
+                };
+                objs.insert(op[1].clone(), o);
+                roots.push((op[1].clone(), o));
+            }
+            "link" => {
+                let mut a = objs[&op[1]];
+                let o = objs[&op[2]];
+                a.as_vec_mut().push(o);
+            }
+            "unroot" => roots.retain(|(n, _)| n != &op[1]),
+            "collect" => {
+                let r: Vec<Object> = roots.iter().map(|(_, o)| *o).collect();
+                g.run(&[r.as_slice()]);
+            }
+            "untrace" => g.untrace(objs[&op[1]]),
+            "drop" => {
+                gc = None; // Drop for GC
+                roots.clear();
+            }
+            "callerfree" => objs[&op[1]].free(),
+            _ => {}
+        }
+        let evs = verif::take_events();
+        let mut double_free = 0;
+        let mut dead_deref = 0;
+        let mut mark_index = 0;
+        for e in &evs {
+            match e {
+                Event::Free { dup: true, .. } => double_free += 1,
+                Event::DeadDeref { .. } => dead_deref += 1,
+                Event::MarkIndex { .. } => mark_index += 1,
+                _ => {}
+            }
+        }
+        let managed: Vec<String> = match gc.as_ref() {
+            Some(g) => {
+                let m = g.verif_managed();
+                objs.iter()
+                    .filter(|(_, o)| m.iter().any(|x| verif::shadow_id_of(*x) == verif::shadow_id_of(**o)))
+                    .map(|(n, _)| n.clone())
+                    .collect()
+            }
+            None => vec![],
+        };
+        let live: Vec<String> = objs
+            .iter()
+            .filter(|(_, o)| verif::shadow_is_live_obj(**o))
+            .map(|(n, _)| n.clone())
+            .collect();
+        obs.push(json!({"live":live,"managed":managed,"double_free":double_free,
+            "dead_deref":dead_deref,"mark_index":mark_index}));
+    }
+    // leave no collector behind that would release things later
+    drop(gc);
+    let _ = verif::take_fault();
+    verif::record_heap(false);
+    json!({"obs":obs})
+}
+
+/// Read NlGC behaviours (one JSON vector per line, as printed by TLC) and replay each
+pub fn replay_gc(args: &Args) {
+    let inp = args.get("in", "/dev/stdin");
+    let out = args.get("out", "/dev/stdout");
+    let first_id = args.num("first-id", 1);
+    let f = std::io::BufReader::new(std::fs::File::open(&inp).expect("open in"));
+    let mut o = std::fs::File::create(&out).expect("create out");
+    let mut w = Worker::spawn(Duration::from_secs(20));
+    let mut id = first_id;
+    for line in f.lines() {
+        let line = line.unwrap();
+        let v: Value = match serde_json::from_str(&line) {
+            Ok(v) => v,
+            Err(_) => continue,
+        };
+        let r = w.request(&json!({"op":"gcops","ops":v["ops"]}));
+        let obs = if r.get("obs").map(|x| x.is_array()).unwrap_or(false) {
+            r["obs"].clone()
+        } else {
+            // the worker died: every step is reported as lost
+            Value::Array(
+                v["ops"]
+                    .as_array()
+                    .unwrap()
+                    .iter()
+                    .map(|_| json!({"live":[],"managed":[],"double_free":1,"dead_deref":0,"mark_index":0}))
+                    .collect(),
+            )
+        };
+        writeln!(o, "{}", json!({"id":id,"ops":v["ops"],"obs":obs})).unwrap();
+        id += 1;
+    }
+}
+
+/// Heap-ledger records: allocating programs, run to the end (mode "runs") or cut short by an
+/// injected error after k instructions, for every k (mode "aborts")
+pub fn gen_heap(args: &Args) {
+    let seed = args.num("seed", 1);
+    let n = args.num("n", 50);
+    let mode = args.get("mode", "runs");
+    let out = args.get("out", "/dev/stdout");
+    let first_id = args.num("first-id", 1);
+    let max_k = args.num("max-k", 120);
+    let mut f = std::io::BufWriter::new(std::fs::File::create(&out).expect("create out"));
+    let mut src = std::fs::File::create(format!("{out}.src")).expect("create src");
+    let mut w = Worker::spawn(Duration::from_secs(15));
+    let mut id = first_id;
+    for i in 0..n {
+        let mut g = Gen::new(seed.wrapping_mul(3_000_017).wrapping_add(i), cfg_for("alloc"));
+        if mode == "aborts" {
+            g.cfg.max_stmts = 6;
+        }
+        let prog = g.program();
+        let text = to_text(&prog, true);
+        let full = RunOpts { budget: Some(100_000), heap: true, release: true, ..Default::default() };
+        let r = w.eval(&text, &full);
+        let steps = r["obs"]["steps"].as_u64().unwrap_or(0);
+        let mut emit = |r: &Value, k: i64, id: u64| {
+            let mut rec = json!({"id":id,"fam":mode,"k":k,"heap":r.get("heap").cloned().unwrap_or(json!([])),
+                "live_after":r.get("live_after").cloned().unwrap_or(json!([])),"obs":r["obs"]});
+            if r.get("heap").is_none() {
+                // the worker died or hung: no ledger; the observation class says so
+                rec["heap"] = json!([]);
+            }
+            writeln!(f, "{}", rec).unwrap();
+        };
+        if mode == "runs" {
+            emit(&r, -1, id);
+            writeln!(src, "{}", json!({"id":id,"text":text})).unwrap();
+            id += 1;
+        } else {
+            let last = steps.min(max_k);
+            for k in 0..=last {
+                let o = RunOpts { budget: Some(k), heap: true, release: true, ..Default::default() };
+                let rk = w.eval(&text, &o);
+                emit(&rk, k as i64, id);
+                writeln!(src, "{}", json!({"id":id,"text":text,"k":k})).unwrap();
+                id += 1;
+            }
+        }
+    }
+}
